@@ -244,13 +244,19 @@ def glue(repo: Path) -> dict:
             and all(isinstance(k, ast.Constant) and isinstance(k.value, str) for k in store.value.keys)):
         raise Unsupported("remembered state is not a dict with two or three string keys")
     sname = store.targets[0].id
-    CACHE = "model._create_cache()"
+    # the model's cache OBJECT (`Model._cache`: discarded by every edit, re-created lazily by the getters; the conversion
+    # itself re-creates it, so it has to be read AFTER compiling).  `model._create_cache()` is not it: it builds a new
+    # object on every call
+    CACHE = "model._cache"
     fn_key = val_key = cache_key = compiled_from = None
-    for k, v in zip(store.value.keys, store.value.values):
+    fn_pos = cache_pos = None
+    for pos, (k, v) in enumerate(zip(store.value.keys, store.value.values)):
         if isinstance(v, ast.Call) and isinstance(v.func, ast.Name) and v.func.id == compile_fn.name and not v.args:
-            fn_key = k.value
+            fn_key, fn_pos = k.value, pos
         elif _norm(v) == CACHE:
-            cache_key = k.value
+            cache_key, cache_pos = k.value, pos
+        elif _norm(v) == "model._create_cache()":
+            raise Unsupported("the remembered cache object is a fresh `_create_cache()` (never the model's own)")
         elif val_key is None:
             val_key, compiled_from = k.value, _norm(v)
         else:
@@ -271,8 +277,10 @@ def glue(repo: Path) -> dict:
     vn = cn = values_from = None
     while body and isinstance(body[0], ast.Assign) and len(body[0].targets) == 1 and isinstance(body[0].targets[0], ast.Name):
         src_ = _norm(body[0].value)
-        if src_ == CACHE and cn is None:
+        if src_ in (CACHE, "model._create_cache()") and cn is None:
             cn = body[0].targets[0].id
+            if src_ != CACHE:
+                raise Unsupported("the closure compares a fresh `_create_cache()` object")
         elif vn is None:
             vn, values_from = body[0].targets[0].id, src_
         else:
@@ -283,6 +291,7 @@ def glue(repo: Path) -> dict:
     rest = body
     recompile = stores = watches = stores_cache = False
     compile_first = True
+    cache_read_after = True
     if len(rest) == 2 and isinstance(rest[0], ast.If):
         iff: ast.If = rest[0]
         if iff.orelse:
@@ -300,6 +309,10 @@ def glue(repo: Path) -> dict:
             elif (isinstance(t_.ops[0], ast.IsNot) and isinstance(l_, ast.Name) and cn is not None and l_.id == cn
                   and is_slot(r_, cache_key)):
                 cache_test = True
+            elif isinstance(t_.ops[0], ast.IsNot) and (
+                    (_norm(t_.left) == CACHE and is_slot(t_.comparators[0], cache_key))
+                    or (_norm(t_.comparators[0]) == CACHE and is_slot(t_.left, cache_key))):
+                cache_test = True
             else:
                 raise Unsupported(f"recompile condition: {ast.unparse(t_)}")
         fn_again = False
@@ -314,8 +327,11 @@ def glue(repo: Path) -> dict:
                     and isinstance(st.value, ast.Name) and st.value.id == vn:
                 stores = True
             elif isinstance(st, ast.Assign) and len(st.targets) == 1 and is_slot(st.targets[0], cache_key) \
-                    and isinstance(st.value, ast.Name) and st.value.id == cn:
+                    and ((isinstance(st.value, ast.Name) and st.value.id == cn) or _norm(st.value) == CACHE):
                 stores_cache = True
+                # a local read at the top of the closure, or a read placed before the compilation, is the object from
+                # BEFORE compiling (the conversion replaces it)
+                cache_read_after = _norm(st.value) == CACHE and fn_again
             else:
                 raise Unsupported(f"statement in the recompile branch: {ast.unparse(st)[:60]}")
         recompile = fn_again and val_test
@@ -374,7 +390,9 @@ def glue(repo: Path) -> dict:
     return {
         "lambdifyArgs": lam_args, "callArgs": call_args, "valuesFrom": values_from, "compiledFrom": compiled_from,
         "matrix": matrix, "recompileOnChange": recompile, "storesValues": stores,
-        "watchesModel": watches, "storesCache": stores_cache, "cacheFrom": CACHE if cache_key is not None else "",
+        "watchesModel": watches, "storesCache": stores_cache,
+        "cacheFrom": ("" if cache_key is None else CACHE + (" (read after compiling)" if cache_read_after and fn_pos < cache_pos
+                                                            else " (read before compiling)")),
         "compileBeforeStore": compile_first,
         "compileInsideTry": True,
         "catchesAll": catches_all, "fallbackNone": fb_none, "fallbackWarns": warns, "integratorGetsJac": gets_jac,
